@@ -77,6 +77,7 @@ typedef struct Node {
 	int efail_errno;             /* errno the failing call reports (0 = leave errno untouched) */
 	int64_t eburst_at; int eburst_k; uint8_t eburst_val;
 	int efail_fired, eburst_fired;
+	uint64_t efail_next_ok_step;          /* sim step of the first successful draw after the failed one (0: none) */
 	int efail_next_seen, efail_retried;   /* the draw right after the first failed one asked for the same number of bytes: a retry */
 	/* allocator: the library's malloc calls made by tasks of this node */
 	uint64_t nmalloc; int64_t afail_at; int afail_rest; int afail_fired;
